@@ -443,8 +443,18 @@ def gen_case(rng, style=None) -> dict:
                 if rng.chance(0.8):
                     target["data"][name] = [NAN if rng.chance(0.05) else rng.randint(4, 40) / 8.0 for _ in range(ncols + 2)]
         target["data"] = {k: [None if v != v else v for v in col] for k, col in target["data"].items()}
+    # ---- the two data-source options, and databox items named like the model's parameters -------------------------------
+    opts = {k: rng.weighted([(None, 2), (False, 1), (True, 1)]) for k in ("parameters_from_data", "shocks_from_data")}
+    pardata = {}
+    for pn in sorted(pars):
+        if rng.chance(0.45):
+            other = [v for v in (0.5, -0.5, 0.25, 1.0, 0.75, 2.0, 0.125, 1.5) if v != pars[pn]]
+            if rng.chance(0.4):
+                pardata[pn] = ["scalar", rng.choice(other)]
+            else:
+                pardata[pn] = ["series", [None if rng.chance(0.15) else rng.choice(other) for _ in range(ncols)]]
     return {
-        "target": target,
+        "target": target, "opts": opts, "pardata": pardata,
         "style": style, "eqs": eqs, "prep": prep, "pars": pars, "exo": exo, "npre": npre, "nper": nper, "npost": npost,
         "plan": plan, "data": {k: [None if v != v else v for v in col] for k, col in data.items()},
         "freq": rng.choice(["ii", "qq", "yy"]), "start": rng.randint(5, 40),
@@ -514,11 +524,52 @@ def out_names(case):
     return names
 
 
+def opt_kwargs(case):
+    """the data-source options as keyword arguments: an option the case leaves absent is not passed at all"""
+    return {k: v for k, v in (case.get("opts") or {}).items() if v is not None}
+
+
+def pardata_column(case, name, ncols):
+    """what the input databox holds under a parameter's name, per column of the data array (NaN: nothing)"""
+    item = (case.get("pardata") or {}).get(name)
+    if item is None:
+        return [NAN] * ncols
+    if item[0] == "scalar":
+        return [item[1]] * ncols
+    return [NAN if v is None else v for v in item[1]]
+
+
+def in_force(case):
+    """the documented rule, as the ORACLE reads it: parameters come from the databox iff parameters_from_data=True (default
+    False; the model's value where the databox has none); residuals come from the databox unless shocks_from_data=False (default
+    True; 0 where the databox has none) -- each option on its own"""
+    o = case.get("opts") or {}
+    pfd = o.get("parameters_from_data") is True
+    sfd = o.get("shocks_from_data") is not False
+
+    def parameter(name, col):          # col = column of the data array
+        if pfd:
+            v = pardata_column(case, name, col + 1)[col] if col >= 0 else NAN
+            if v == v:
+                return v
+        return case["pars"][name]
+
+    def residual(name, col):
+        if not sfd:
+            return 0.0
+        colvals = case["data"].get(name)
+        v = None if colvals is None or not (0 <= col < len(colvals)) else colvals[col]
+        return 0.0 if v is None else v
+    return parameter, residual
+
+
 def request_line(case, mode, order, eff=None) -> str:
     row = rows_of(case)
     npre, nper, npost = case["npre"], case["nper"], case["npost"]
     ncols = npre + nper + npost
-    secs = [f"sim {mode} {order} {npre} {nper} {ncols}"]
+    o = case.get("opts") or {}
+    fl = lambda v: "-" if v is None else ("1" if v else "0")
+    secs = [f"sim {mode} {order} {npre} {nper} {ncols} {fl(o.get('parameters_from_data'))} {fl(o.get('shocks_from_data'))}"]
     for e in ([case["eqs"][i] for i in eff] if eff is not None else case["eqs"]):
         res = row.get("res_" + e["lhs"], 0)
         secs.append(f"E {row[e['lhs']]} {e['tr']} {1 if e['identity'] else 0} {res} {prefix(tuple_tree(e['rhs']), row)}")
@@ -531,14 +582,14 @@ def request_line(case, mode, order, eff=None) -> str:
     res_names = set("res_" + e["lhs"] for e in case["eqs"] if not e["identity"])
     for n, i in row.items():
         if n in case["pars"]:
-            vals = [case["pars"][n]] * ncols
-        elif n in case["data"]:
+            # the model's value and the databox item of that name: the MODEL decides which one is in force (initialCell)
+            secs.append(f"Dp {i} {rat_of_float(case['pars'][n])} " + " ".join(rat_of_float(v) for v in pardata_column(case, n, ncols)))
+            continue
+        if n in case["data"]:
             vals = [NAN if v is None else v for v in case["data"][n]]
         else:
             vals = [NAN] * ncols
-        if n in res_names:
-            vals = [0.0 if v != v else v for v in vals]    # Dataslate fallback: missing residuals are 0
-        secs.append(f"D {i} " + " ".join(rat_of_float(v) for v in vals))
+        secs.append(("Dr" if n in res_names else "D") + f" {i} " + " ".join(rat_of_float(v) for v in vals))
     secs.append("O " + " ".join(str(row[n]) for n in out_names(case)))
     return " ; ".join(secs)
 
@@ -589,6 +640,10 @@ def build_impl(case, counts=None):
     db = ir.Databox()
     for n, col in case["data"].items():
         db[n] = ir.Series(start=p0 - npre, values=np.array([NAN if v is None else v for v in col], dtype=float))
+    for n, item in (case.get("pardata") or {}).items():
+        # an item of the input databox that is named like a parameter of the model
+        db[n] = float(item[1]) if item[0] == "scalar" else ir.Series(
+            start=p0 - npre, values=np.array([NAN if v is None else v for v in item[1]], dtype=float))
 
     def make_plan(model):
         if not case["plan"]:
@@ -606,7 +661,7 @@ def build_impl(case, counts=None):
     def simulate(model, order):
         try:
             out = model.simulate(db, span, plan=make_plan(model), when_simulates_nan="silent",
-                                 execution_order="dates_equations" if order == "de" else "equations_dates")
+                                 execution_order="dates_equations" if order == "de" else "equations_dates", **opt_kwargs(case))
         except Exception as e:
             return err_kind(e), None, None
         return "ok", output_values(case, out, span), out
@@ -672,7 +727,7 @@ def nan_policy_check(ctx: Ctx, case, order, built, vals):
         return
     try:
         m.simulate(db, span, plan=plan, when_simulates_nan="error",
-                   execution_order="dates_equations" if order == "de" else "equations_dates")
+                   execution_order="dates_equations" if order == "de" else "equations_dates", **opt_kwargs(case))
         raised = False
     except Exception:
         raised = True
@@ -693,7 +748,9 @@ def run_impl(case, order, built=None):
             raise built
         m, db, span, plan, *_ = built
         target = built[6] if len(built) > 6 else None
-        kw = {} if target is None else {"target_db": target}
+        kw = dict(opt_kwargs(case))
+        if target is not None:
+            kw["target_db"] = target
         out = m.simulate(db, span, plan=plan, when_simulates_nan="silent",
                          execution_order="dates_equations" if order == "de" else "equations_dates", **kw)
     except Exception as e:
@@ -897,6 +954,7 @@ def oracle(ctx: Ctx, case, order, status, vals, out_db, eff=None):
         for c in p["cols"]:
             points[(p["name"], c)] = {**p, "kind": oracle_plan_kind(plan_spelling(p))}     # the oracle resolves the spelling itself
     closed = static_condition(parsed, order, nper)
+    par_in_force, res_in_force = in_force(case)
     sched = ([(c, i) for c in range(nper) for i in range(len(parsed))] if order == "de"
              else [(c, i) for i in range(len(parsed)) for c in range(nper)])
     # which cells does each step write (the LHS cell; the residual cell where the plan has a point)
@@ -907,6 +965,7 @@ def oracle(ctx: Ctx, case, order, status, vals, out_db, eff=None):
         if not e["ident"] and (e["name"], c) in points:
             w.add(("res_" + e["name"], c))
         writes.append(w)
+    all_written = set().union(*writes) if writes else set()
     written_later = [set() for _ in sched]
     acc = set()
     for k in range(len(sched) - 1, -1, -1):
@@ -930,15 +989,25 @@ def oracle(ctx: Ctx, case, order, status, vals, out_db, eff=None):
             continue
         flags.append("T")
         point = None if e["ident"] else points.get((e["name"], c))
-        ev = TextEval(lambda n, s, c=c: read(n, c + s), case["pars"])
+        # the residual in force at a point that no step writes is the input one (0 where missing) -- or 0 under
+        # shocks_from_data=False -- and it is what the output must report as "its residual"
+        if not e["ident"] and point is None and res_cell not in all_written:
+            out_r, want_r = read("res_" + e["name"], c), res_in_force("res_" + e["name"], npre + c)
+            if out_r is None or out_r != out_r or abs(out_r - want_r) > 1e-12 * max(1.0, abs(want_r)):
+                ctx.fail("residual-in-force", {"case": case, "order": order},
+                         f"order={order} residual of `{eq_texts[i]}` at simulated period #{c}: the output reports {out_r!r}, the residual "
+                         f"in force by the data-source options {case.get('opts')} is {want_r!r}")
+                continue
+            ctx.count("oracle_residual_in_force_checked")
+        # parameter values in force at this period, by the documented rule (never read back from the output)
+        ev = TextEval(lambda n, s, c=c: read(n, c + s), {pn: par_in_force(pn, npre + c) for pn in case["pars"]})
         site = None
         try:
             rhs_v = ev.ev(ast.parse(e["rhs"].strip(), mode="eval"))
             cur = read(e["name"], c)
             if cur is None or cur != cur:
                 # (the residual that a plain simulation uses is the input one; a missing input residual counts as 0)
-                rcol = None if e["ident"] else case["data"].get("res_" + e["name"])
-                res_v = 0.0 if rcol is None or rcol[npre + c] is None else rcol[npre + c]
+                res_v = 0.0 if e["ident"] else res_in_force("res_" + e["name"], npre + c)
                 # a NaN left-hand side is only excusable when something the equation needs is NaN/undefined, or when the
                 # point is exogenized at a NaN target without when_data
                 func = e["lhs"].split("(")[0].strip().replace("_", "") if "(" in e["lhs"] else None
@@ -1157,7 +1226,7 @@ def run_cases(ctx: Ctx, cases, with_model=True):
                 if with_model:
                     try:
                         mm, dbb, spn, pln, *_ = built[ci]
-                        plain = mm.simulate(dbb, spn, plan=pln, when_simulates_nan="silent",
+                        plain = mm.simulate(dbb, spn, plan=pln, when_simulates_nan="silent", **opt_kwargs(case),
                                             execution_order="dates_equations" if order == "de" else "equations_dates")
                         merges.append((case, order, list(target.keys()), list(plain.keys()), list(out_db.keys()),
                                        snapshot(target, list(target.keys())), snapshot(plain, list(plain.keys())),
@@ -1178,6 +1247,10 @@ def run_cases(ctx: Ctx, cases, with_model=True):
             ctx.count("plan_" + p["kind"] + ("_when_data" if p["when"] else ""))
             ctx.count("plan_keyword_" + str(plan_spelling(p)))
         ctx.count("impl_" + status)
+        for ok_, ov_ in sorted((case.get("opts") or {}).items()):
+            ctx.count(f"option_{ok_}_{'absent' if ov_ is None else ov_}")
+        if case.get("pardata"):
+            ctx.count("databox_has_items_named_like_parameters")
         if order == "de":
             src_text = source_of(case)
             for sp in sorted(set(x for v in PSEUDO_SPELLINGS.values() for x in v)):
@@ -1310,7 +1383,8 @@ RULE = ("random sequential models (1-8 equations; LHS transforms none/log/diff/d
         "sequentialize(), random re-orderings, copy(), full simulations with the plan before and between the re-orderings; the same "
         "object simulated under both orders) x pseudo-functions in every documented spelling (diff, diff_log/difflog, pct, roc, shift, "
         "mov_sum/movsum, mov_avg/movavg, mov_prod/movprod, with and without explicit window) on right-hand sides, diff_log/difflog on the left "
-        "x the target_db option (absent; foreign names only; the model's names with stale values; a baseline run of the same object; the "
+        "x the data-source options parameters_from_data / shocks_from_data (each absent / False / True) with databox items named like the "
+        "model's parameters (scalars or series with gaps, values different from the model's) x the target_db option (absent; foreign names only; the model's names with stale values; a baseline run of the same object; the "
         "input databox itself) x both execution orders. A case is non-trivial when it has >= 2 equations and >= 2 periods or mixes simulated and "
         "exogenized steps; distinct = distinct (order, #equations, #periods, set of LHS transforms, set of plan transforms, fallback seen, exact class)")
 
